@@ -43,6 +43,13 @@ class ProfileMachine(Machine):
 
     # ------------------------------------------------------------------
     def make_cfg(self, rng, avoid):
+        cfg = self._make_cfg(rng, avoid)
+        if cfg['method'] != 'subpixel' and rng.chance(0.2):
+            # documented as ignored unless method='subpixel'
+            cfg['subpixels'] = rng.pick([None, 0, 5.0])
+        return cfg
+
+    def _make_cfg(self, rng, avoid):
         return {'kind': rng.pick(['gauss', 'gauss', 'constant', 'nonneg',
                                   'signed']),
                 'error': rng.chance(0.6), 'mask': rng.chance(0.4),
@@ -161,11 +168,13 @@ class ProfileMachine(Machine):
                 area.append(0.0)
                 continue
             ap = CircularAperture(xy, r)
+            # subpixels only means something for method='subpixel'
+            sp = cfg.get('subpixels', 3) if cfg['method'] == 'subpixel' \
+                else 5
             f, e = ap.do_photometry(data, error=err, mask=mask,
-                                    method=cfg['method'],
-                                    subpixels=cfg.get('subpixels', 3))
+                                    method=cfg['method'], subpixels=sp)
             a = ap.area_overlap(data, mask=mask, method=cfg['method'],
-                                subpixels=cfg.get('subpixels', 3))
+                                subpixels=sp)
             flux.append(f[0])
             ferr.append(e[0] if err is not None else np.nan)
             area.append(a)
@@ -251,6 +260,11 @@ class ProfileMachine(Machine):
             # draws it on a cutout (non-zero origin)
             return {'op': 'aper_plot', 'k': rng.randrange(12),
                     'origin': [rng.uniform(1, 9), rng.uniform(-4, 7)]}
+        if r < 0.8575 and self.variant == 'radial':
+            # the Gaussian fit of the profile (frozen at its first read) is
+            # a read like any other: the arrays stay what they are
+            return {'op': 'gauss', 'attr': rng.pick([
+                'gaussian_fwhm', 'gaussian_profile', 'gaussian_fit'])}
         if r < 0.86:
             # a typo in an attribute makes a read fail; the caller corrects
             # it and reads again
@@ -442,6 +456,13 @@ class ProfileMachine(Machine):
                      origin=tuple(op['origin']))
                 st.stats.probe('handed_out_aperture_plotted')
             st.hist.append('aplot')
+            return
+        if kind == 'gauss':
+            if self.variant != 'radial':
+                raise Inapplicable('gauss')
+            call(getattr, o, op['attr'])
+            st.stats.probe('gaussian_fit_read')
+            st.hist.append('gauss')
             return
         if kind == 'bad_then_fix':
             good = o.method
